@@ -378,11 +378,11 @@ def report(prop, tier, seed, joblist, results, wall, a, mod):
     if not vcount and tier in base and not a.jobs and base[tier] and not (set(base[tier]) & set(all_ids)):
         print(f"ENGINE-ERROR property={prop}: none of the baseline obligations was generated"); status = 3
     # ---- evidence ----------------------------------------------------------------------------
-    n_und = n_obl - n_dis - sum(1 for v in all_ids.values() if v == 'refuted')
-    all_proved = (n_obl > 0 and n_dis == n_obl)
-    level = 'proof' if (n_obl > 0 and not undecided and not lost and n_und <= 0 and (n_dis == n_obl or (knowns and not violations))) else 'exploration'
+    n_known_obl = sum(1 for _, o, how, _ in knowns if how != 'twin')
+    n_claim = n_obl - n_known_obl          # obligations not covered by a listed known finding
+    level = 'proof' if (n_claim > 0 and not undecided and not lost and not violations and n_dis == n_claim) else 'exploration'
     cov = dict(
-        obligations=n_obl, discharged=n_dis,
+        obligations=n_claim, discharged=n_dis, obligations_refuted_by_known_findings=n_known_obl,
         checker_cmd=f"./check {prop} --tier {tier}",
         trusted_base=sorted(shimset) + ["CPython 3.12 as interpreter of the non-symbolic part", "pvc value classes (SReal/SBool/AVec) and term differentiator", "z3 5.1 / cvc5 1.0.3", "spec functions in /verif/contracts"],
         per_level=per_level, per_backend=per_backend, solver_time_s=round(solver_time, 3),
